@@ -110,6 +110,10 @@ def build(ov, gen_for=None, debug_assertions=True):
                 t = open(p).read()
                 if "#[cfg(test)]" in t:
                     open(p, "w").write(t.replace("#[cfg(test)]", "#[cfg(any())]"))
+    # harness stubs of std internals (Arc::drop_slow) need an unstable feature; cfg(kani) only
+    lib = os.path.join(ov, "src", "lib.rs")
+    lib_text = open(lib).read()
+    open(lib, "w").write("#![cfg_attr(kani, feature(allocator_api))]\n" + lib_text)
     os.makedirs(os.path.join(ov, "h"))
     mounted = []
     for hf, (mount, modname) in MOUNTS.items():
